@@ -23,6 +23,8 @@ TEXTS = [
     ('import_missing', '@import "nowhere.pydjinni"\nfoo = enum { a; }\n'),
     ('crash_field', 'foo = record { a: ; }\n'),
     ('crash_decl', 'foo = ;\nbar = enum { a; }\n'),
+    ('generic', '# doc of foo\nfoo = enum { a; }\nrec = record { x: list<foo>; y: i32; }\n'),
+    ('generic2', 'foo = enum { a; }\nbar = record { k: i8; }\nr2 = record { m: map<foo, bar>; n: list<list<bar>>; }\n'),
     ('empty', ''),
     ('noise', '}}} = ( ;\n'),
 ]
@@ -31,8 +33,12 @@ EXPECT_DEF = {'imports': [((0, 12), 'lib.pydjinni'), ((1, 20), 'lib.pydjinni')],
               'imports_with_error': [((0, 12), 'lib.pydjinni'), ((1, 20), 'lib.pydjinni')],
               'valid1': [((1, 18), 'a.pydjinni'), ((0, 0), None)],
               'deprecated_use': [((2, 18), 'a.pydjinni')]}
+# generic arguments: the answer must be about the ARGUMENT under the cursor (file and 0-based line of its declaration), not about the container
+EXPECT_DEF_AT = {'generic': [((2, 23), ['a.pydjinni', 1]), ((2, 18), None), ((2, 20), None)],
+                 'generic2': [((2, 23), ['a.pydjinni', 0]), ((2, 26), ['a.pydjinni', 1]), ((2, 18), None)]}
+EXPECT_HOVER = {'generic': [((2, 23), 'doc of foo'), ((2, 9), None)]}
 EXPECT_DIAGS = {'valid1': [], 'valid2': [], 'imports': [2], 'syntax': [1], 'unknown': [1], 'rule': [1], 'duplicate': [1], 'deprecated_use': [2],
-                'imports_with_error': [1], 'import_missing': [1], 'empty': []}
+                'imports_with_error': [1], 'import_missing': [1], 'empty': [], 'generic': [], 'generic2': []}
 ROWS = [0, 1, 2]
 COLS = [0, 4, 9, 12, 14, 16, 18, 20, 23, 26, 30]
 
@@ -79,7 +85,8 @@ def run(ctx):
     probes = [(row, col) for row in ROWS for col in COLS]
     fresh = []
     for name, text in TEXTS:
-        ev = [['open', 'a.pydjinni', text], ['symbols', 'a.pydjinni']] + [['definition', 'a.pydjinni', row, col] for row, col in probes]
+        ev = [['open', 'a.pydjinni', text], ['symbols', 'a.pydjinni']] + [['definition', 'a.pydjinni', row, col] for row, col in probes] + \
+             [['hover', 'a.pydjinni', row, col] for (row, col), _ in EXPECT_HOVER.get(name, [])]
         fresh.append({'disk': {'lib.pydjinni': LIB}, 'events': ev})
     ok, res = run_impl('lsp_run', {'cases': fresh}, timeout=900)
     if not ok:
@@ -101,6 +108,17 @@ def run(ctx):
             if (got[0] if got else None) != want:
                 ctx.add_violation({'kind': 'wrong-definition-answer', 'text': name}, 'text %r alone: go-to-definition at (%d, %d) answers %s, expected file %s' % (name, row, col, got, want),
                                   {'text': text, 'position': [row, col]})
+        for (row, col), want in EXPECT_DEF_AT.get(name, []):
+            got = outs[2 + probes.index((row, col))].get('answer')
+            if got != want:
+                ctx.add_violation({'kind': 'wrong-definition-answer', 'text': name, 'generic_argument': True},
+                                  'text %r alone: go-to-definition at (%d, %d) answers %s, expected %s' % (name, row, col, got, want), {'text': text, 'position': [row, col]})
+        for k, ((row, col), want) in enumerate(EXPECT_HOVER.get(name, [])):
+            got = outs[2 + len(probes) + k].get('hover')
+            if got != want:
+                ctx.add_violation({'kind': 'wrong-hover-answer', 'text': name}, 'text %r alone: hover at (%d, %d) answers %r, expected %r' % (name, row, col, got, want),
+                                  {'text': text, 'position': [row, col]})
+        outs = outs[:2 + len(probes)]
         diags = clist(['(%d, %d, %d)' % tuple(d) for d in outs[0]['published']['diags']])
         syms = cstrs(outs[1]['symbols'] or [])
         defs = clist(['(%d, %d, %s)' % (row, col, 'None' if a.get('answer') is None else '(Some (%s, %d))' % (cstr('<self>' if a['answer'][0] == 'a.pydjinni' else a['answer'][0]), a['answer'][1]))
